@@ -48,6 +48,9 @@ func runC03(c *Config, r *Report) {
 		x.folders("R03.1")
 		x.r12()
 		x.r13()
+		c03R17to19(ic, x, r)
+		x.rule16 = "R03.20"
+		x.r2x13()
 	}
 	c03R2(ic, r)
 	c03R3(ic, r)
